@@ -78,6 +78,9 @@ type Term struct {
 	RadHi, RadLo, RadUnit int64
 	// INT mode: the term is the sum of these addends (no wrap-around)
 	Sum []Int
+	// INT mode: the term is MulOf * MulC (no wrap-around, MulC > 1)
+	MulOf *Term
+	MulC  int64
 	// Real terms: candidate for floor(term), to be confirmed by the solver
 	FloorCand *Term
 }
